@@ -19,7 +19,8 @@ TraceNext ==
   /\ LET e == Rec[l] IN
      /\ e.outside = 0
      /\ IF e.op.name = "reset"
-        THEN /\ bits' = Zero /\ purpose' = e.p /\ e.post = 0
+        THEN /\ e.res.ok             \* a fresh list of that size could be built, encoded and decoded to the same list
+             /\ bits' = Zero /\ purpose' = e.p /\ e.post = 0
              /\ last' = [n |-> N, p |-> e.p, pre |-> 0, op |-> e.op, res |-> e.res, post |-> 0]
         ELSE LET r == Apply(bits, purpose, e.op)
              IN /\ e.p = purpose
